@@ -7,7 +7,7 @@
    (camera, tag, hardware id) in the harness, which recovers the tag from the bytes it sees, so `f_tag`/`f_hw` equality is
    bit-exactness of the payload on the implementation side. *)
 From Coq Require Import List Bool Arith NArith.
-From Pipe Require Import PipeModel PipeInvDefs PipeStep PipeSysProps PipeExamples.
+From Pipe Require Import PipeModel PipeInvDefs PipeStep PipeSysProps PipeGhost PipeExamples.
 Import ListNotations.
 
 (* safety, in every reachable state: what storage has received since it was started is a prefix -- in order, nothing
@@ -34,6 +34,44 @@ Theorem C04_complete_when_workers_done : forall y i, reachable y -> let s := str
   stored s = delivered s /\ N.of_nat (length (delivered s)) = goal s.
 Proof. exact complete_when_workers_done. Qed.
 Print Assumptions C04_complete_when_workers_done.
+
+(* the hypotheses of the completeness theorems are stated with ghost flags of the model (`src_on`, `aborted`, `sto_failed`,
+   `cam_failed`); they carry no information of their own: a successful storage start clears them, and afterwards each is raised by
+   exactly one kind of observable event -- the creation of the source thread, the client's refusal of writes (abort, shutdown, a
+   failed start: also the API bookkeeping lemmas PipeGhost.ghost_begin_stop / ghost_fail_start), a failing append, a failing frame
+   call.  So "not aborted, no fault" means: no such event since the storage was started. *)
+Theorem C04_ghost_flags_are_events : forall s a e s',
+  step_stream s a e = Some s' ->
+  if ev_sto_started e
+  then aborted s' = false /\ sto_failed s' = false /\ cam_failed s' = false /\ src_on s' = false /\ acq_on s' = false
+  else aborted s' = (aborted s || ev_refuse a e) /\
+       sto_failed s' = (sto_failed s || ev_append_failed e) /\
+       cam_failed s' = (cam_failed s || ev_frame_failed e) /\
+       src_on s' = (src_on s || ev_source_created e) /\
+       acq_on s' = (acq_on s || ev_writes_enabled_at_start a e s).
+Proof. exact ghost_step. Qed.
+Print Assumptions C04_ghost_flags_are_events.
+
+(* likewise the logs the theorems compare: `stored` grows by exactly the frames of each successful append and is cleared by a
+   storage start, `delivered` grows by exactly the frame of each successful frame call (frame id = the source's counter) and is
+   cleared by a camera start, `seen` grows by exactly the frames the monitor releases at an unmap, `log` (the queue) by exactly
+   the committed frame *)
+Theorem C04_logs_are_events : forall s a e s',
+  step_stream s a e = Some s' ->
+  stored s' = (match e with DStoStart _ true => [] | DAppend _ true fs => stored s ++ fs | _ => stored s end) /\
+  delivered s' = (match e with
+                  | DCamStart _ true _ => []
+                  | DGetFrame _ (Some (hw, tag, sh)) => delivered s ++ [mkF tag (iframe s) hw sh]
+                  | _ => delivered s
+                  end) /\
+  seen s' = (match a, e with
+             | _, DStoStart _ true => []
+             | ACli, RUnmap RdMon c => seen s ++ seg (log s) (mon_cur s) (Nat.min c (mon_k' s))
+             | _, _ => seen s
+             end) /\
+  log s' = (match e with Commit true f => log s ++ [f] | _ => log s end).
+Proof. exact logs_step. Qed.
+Print Assumptions C04_logs_are_events.
 
 (* two streams never mix: an event of stream i leaves stream 1-i's state untouched; the one exception, a failing device
    start (acquire_start then aborts every stream), changes control flags only, never the other stream's queue, storage
